@@ -97,7 +97,7 @@ func VerifC31Object() {
 		name = rt.Str("namebyte", 1)
 	}
 	val := SuStr(rt.Str("val", rt.Pick("vallen", 2)))
-	n := rt.IntRange("n", -5, 5)
+	n := []int{-1, 3}[rt.Pick("n", 2)]
 	var ob Value
 	if rt.Pick("record", 2) == 1 {
 		r := &SuRecord{}
